@@ -645,6 +645,10 @@ func ruleC08Facade(r *Run) {
 			if !isLd || ld.Op != token.MUL || !isNamedPtr(ld.X.Type(), ctxT) {
 				return
 			}
+			// the source is a live context handed in from outside (receiver / parameter), not a local prototype value
+			if _, isPrm := ld.X.(*ssa.Parameter); !isPrm {
+				return
+			}
 			okRe, _ := allPathsHit(f, in, func(x ssa.Instruction) bool {
 				s2, ok := x.(*ssa.Store)
 				if !ok {
